@@ -60,6 +60,11 @@ type FuncCtx struct {
 	stateID  int
 	strLits  map[string]string
 	obls     []*Obligation
+	assertHit map[*Clause]int // call-site assertions: number of call sites matched
+	lastCall  map[string]Val  // callee name -> value returned by its latest call in the root function (spec builtin returned())
+	lastCallBlock map[string]*ssa.BasicBlock
+	inLemma       bool // this context proves a lemma: proved-lemma axioms from lemmaAxLimit on are not available
+	lemmaAxLimit  int
 	notes    []string // abstraction notes
 	notesSet map[string]bool
 	assumptions map[string]bool
